@@ -129,6 +129,27 @@ def edited_variants(g, t):
         out.append(("field-name", swap(rebuild(c, values={(k + "_x" if k == k0 else k): w for k, w in c.values.items()}))))
         out.append(("field-dropped", swap(rebuild(c, values={k: w for k, w in c.values.items() if k != k0}))))
         out.append(("field-added", swap(rebuild(c, values={**c.values, "zz_extra": 0}))))
+    # a key moved between details and loss_details, or a detail named like an attribute
+    md = c.metadata
+    kw0 = {x: getattr(md, x) for x in ATTRS}
+    moved = []
+    if md.details:
+        k1 = next(iter(md.details))
+        moved.append(("metadata.detail->loss_detail", {**kw0, "details": {k: v for k, v in md.details.items() if k != k1},
+                                                        "loss_details": {**md.loss_details, k1: md.details[k1]}}))
+    if md.loss_details:
+        k1 = next(iter(md.loss_details))
+        moved.append(("metadata.loss_detail->detail", {**kw0, "loss_details": {k: v for k, v in md.loss_details.items() if k != k1},
+                                                        "details": {**md.details, k1: md.loss_details[k1]}}))
+    if md.currency is not None and "currency" not in md.details:
+        moved.append(("metadata.attribute->detail", {**kw0, "currency": None, "details": {**md.details, "currency": md.currency}}))
+    for nm, kw in moved:
+        try:
+            m2 = Metadata(**kw)
+            if m2 != md or True:
+                out.append((nm, swap(rebuild(c, metadata=m2))))
+        except Exception:  # noqa: BLE001
+            pass
     for a in ATTRS:
         kw = {x: getattr(c.metadata, x) for x in ATTRS}
         kw = g.vary(kw, a, 1)
